@@ -165,6 +165,61 @@ Theorem c10_gs1_unanswered_requests_retried : forall port s,
 Proof. exact gs1_unanswered_requests_retried. Qed.
 Print Assumptions c10_gs1_unanswered_requests_retried.
 
+(* ---- silence in the middle of a GameSpy 3 reply: some of the packets of the reply arrive (any of them, each at most once,
+   in any order, at least one missing), then nothing.  The attempt ends with the receive timeout having consumed exactly
+   those events; mixed with the two faults above, any number of times up to the retry count, the result is the fault-free one. ---- *)
+From GD Require Import Proofs.GamespyOrder Proofs.Gamespy3Query Proofs.Gamespy3Order Proofs.Gamespy3Partial.
+Theorem c10_gs3_partial_fault_means : forall s f,
+  fault_events2 s f = match f with
+                      | NoHandshake => [Timeout]
+                      | NoData => [Datagram (s3_handshake s); Timeout]
+                      | PartialData got => Datagram (s3_handshake s) :: map Datagram (map (dg (length (s3_payloads s))) got) ++ [Timeout]
+                      end
+  /\ (fault_ok s f <-> match f with
+                      | PartialData got => NoDup (map fst got) /\ incl got (reply_items s) /\ (length got < length (s3_payloads s))%nat
+                      | _ => True
+                      end)
+  /\ map (dg (length (s3_payloads s))) (reply_items s) = s3_packets s.
+Proof. intros s f. split; [destruct f; reflexivity|]. split; [destruct f; reflexivity|]. exact (reply_items_are_the_packets s). Qed.
+Print Assumptions c10_gs3_partial_fault_means.
+Theorem c10_gs3_partial_reply_times_out : forall (todo done : list item) n fuel (u : list udp_event) t sn cur tr,
+  (n <= 128)%nat -> (length todo < fuel)%nat ->
+  NoDup (map fst (done ++ todo)) -> (forall p, In p (done ++ todo) -> (fst p < n)%nat /\ (length (snd p) + 17 <= 2048)%nat) ->
+  (length (done ++ todo) < n)%nat ->
+  exists tr',
+    gs3_packets_loop fuel (collect done []) (if has_last n done then Some n else None)
+      (mknet (map Datagram (map (dg n) todo) ++ Timeout :: u) t [] sn cur tr)
+    = (Err PacketReceive, mknet u t [] sn cur tr').
+Proof. exact packets_partial_then_timeout. Qed.
+Print Assumptions c10_gs3_partial_reply_times_out.
+Theorem c10_gs3_partial_replies_retried : forall port s,
+  (- 2147483648 <= s3_challenge s < 2147483648)%Z -> (length (show_Z (s3_challenge s)) <= 10)%nat ->
+  (length (s3_payloads s) <= 128)%nat -> Forall (fun p => (length p + 17 <= 2048)%nat) (s3_payloads s) ->
+  forall t v, settings_ok t -> Forall (fault_ok s) v -> (length v <= N.to_nat (ts_retries_or_default t))%nat ->
+  wf_s3 s = true ->
+  fst (gs3_query port t (net_init (flat_map (fault_events2 s) v ++ map Datagram (s3_script s)) [] [])) = Ok (s3_expected s).
+Proof. exact gs3_partial_replies_retried. Qed.
+Print Assumptions c10_gs3_partial_replies_retried.
+(* test: a generated reply of several packets; all but the first arrive, then silence.  With one retry the answer is the
+   fault-free one, with none the query fails with the receive timeout *)
+Example c10_gs3_partial_ex :
+  let s3 := fst (gen_s3 5) in
+  let got := skipn 1 (reply_items s3) in
+  let net := net_init (fault_events2 s3 (PartialData got) ++ map Datagram (s3_script s3)) [] [] in
+  fault_ok s3 (PartialData got) /\ got <> [] /\
+  bytes_eqb (show_outcome show_gs3 (fst (gs3_query 1 (Some (mkts (Some (4, 0)) (Some (4, 0)) (Some (4, 0)) 1)) net)))
+            (show_outcome show_gs3 (Ok (s3_expected s3))) = true /\
+  bytes_eqb (show_outcome show_gs3 (fst (gs3_query 1 None net))) (show_outcome show_gs3 (Err PacketReceive)) = true.
+Proof.
+  cbv zeta. split; [|split; [vm_compute; discriminate|vm_compute; split; reflexivity]].
+  split; [|split].
+  - assert (E : map fst (skipn 1 (reply_items (fst (gen_s3 5)))) = skipn 1 (seq 0 (length (s3_payloads (fst (gen_s3 5)))))).
+    { unfold reply_items. rewrite <- items_from_fst. generalize (items_from 0 (s3_payloads (fst (gen_s3 5)))). intros l. destruct l; reflexivity. }
+    rewrite E. generalize (length (s3_payloads (fst (gen_s3 5)))). intros n. destruct n as [|n]; [constructor|]. cbn [seq skipn]. apply seq_NoDup.
+  - intros p Hp. rewrite <- (firstn_skipn 1 (reply_items (fst (gen_s3 5)))). apply in_or_app. right. exact Hp.
+  - vm_compute. lia.
+Qed.
+
 Example c10_ex : (* two timeouts then a reply, r = 2 *)
   let att : M N := fun n => match n_udp n with
                             | Datagram d :: r => (Ok (lenN d), mknet r [] [] 0 None [])
